@@ -108,3 +108,15 @@ func VerifClockRunning() bool {
 	defer fast.mu.Unlock()
 	return fast.running
 }
+
+// VerifClockEnd returns the wall-clock time up to which the timeout clock is set to run
+// (zero time if the clock was never started or was stopped explicitly).
+func VerifClockEnd() time.Time {
+	fast.mu.Lock()
+	defer fast.mu.Unlock()
+	end := fast.clockEnd.read()
+	if fast.start.IsZero() || end == 0 {
+		return time.Time{}
+	}
+	return fast.start.Add(time.Duration(end) << 20)
+}
